@@ -136,7 +136,10 @@ def _decl_at(relfile, line):
 
 
 def theorems_in(props_file):
-    """(namespace-qualified) names of every theorem declared in a Props file."""
+    """(namespace-qualified) names of every theorem declared in a Props file
+    (or in each of a list of Props files)."""
+    if isinstance(props_file, (list, tuple)):
+        return [t for f in props_file for t in theorems_in(f)]
     src = _strip_comments(open(os.path.join(LEAN_DIR, props_file)).read())
     names, ns = [], []
     for line in src.split("\n"):
